@@ -1115,6 +1115,9 @@ pub struct GenParams {
     pub avoid: bool,
     pub avoid_drop: bool,
     pub allow_reopen: bool,
+    /// a DELETE may name the initial ids another session's DELETE names too (both run
+    /// concurrently: two delete vectors with the same row ids)
+    pub overlap_deletes: bool,
 }
 
 /// Ids: initial rows of a table are 0.., rows inserted by session `s` are `1000 * (s + 1)`..;
@@ -1148,6 +1151,8 @@ pub fn gen_workload(t: &mut Tape, p: &GenParams, disk: DiskCfg, choices: Vec<u32
     }
     let ns = t.range(p.sessions.0, p.sessions.1);
     let mut sessions = vec![];
+    // initial ids named by a DELETE so far: (table, session, ids)
+    let mut claimed: Vec<(usize, usize, Vec<i32>)> = vec![];
     for s in 0..ns {
         let n = t.range(p.stmts.0, p.stmts.1);
         let mut own: Vec<Vec<i32>> = vec![vec![]; nt];
@@ -1156,7 +1161,15 @@ pub fn gen_workload(t: &mut Tape, p: &GenParams, disk: DiskCfg, choices: Vec<u32
         for _ in 0..n {
             let tb = t.pick(nt);
             let want_delete = t.chance(1, 2);
-            if want_delete && (!own[tb].is_empty() || !pool[tb].is_empty()) {
+            let others: Vec<usize> = (0..claimed.len()).filter(|i| claimed[*i].0 == tb && claimed[*i].1 != s).collect();
+            if want_delete && p.overlap_deletes && !others.is_empty() && t.chance(1, 3) {
+                // the same initial rows as a DELETE of another session (whole set or a part)
+                let mut ids = claimed[others[t.pick(others.len())]].2.clone();
+                if ids.len() > 1 && t.chance(1, 3) {
+                    ids.truncate(1 + t.pick(ids.len() - 1));
+                }
+                v.push(Stmt::Delete { t: tb, ids, form: t.weighted(&[2, 1]) as u8 });
+            } else if want_delete && (!own[tb].is_empty() || !pool[tb].is_empty()) {
                 let from_own = !own[tb].is_empty() && (pool[tb].is_empty() || t.chance(1, 2));
                 let src = if from_own { &mut own[tb] } else { &mut pool[tb] };
                 let k = (1 + t.pick(3)).min(src.len());
@@ -1172,6 +1185,9 @@ pub fn gen_workload(t: &mut Tape, p: &GenParams, disk: DiskCfg, choices: Vec<u32
                 } else {
                     ids
                 };
+                if !from_own {
+                    claimed.push((tb, s, ids.clone()));
+                }
                 v.push(Stmt::Delete { t: tb, ids, form });
             } else {
                 let n = if t.chance(1, 10) { 20 + t.pick(20) } else { 1 + t.pick(3) };
